@@ -44,6 +44,9 @@ def mat_content(c):
         return None
     if isinstance(c, list):
         return [materialize(x) for x in c]
+    if "children" in c:
+        # n children <item i="k"/> (compact form for the wide lists at the top of the 16-bit range)
+        return [("item", {"i": str(k)}, None) for k in range(c["children"])]
     if "hex" in c:
         return bytes.fromhex(c["hex"])
     return pattern_bytes(c["len"], c["pat"])
@@ -51,6 +54,11 @@ def mat_content(c):
 
 def materialize(spec):
     attrs = {}
+    if isinstance(spec.get("a"), dict):
+        # n attributes k<i>="<i>" (compact form)
+        for i in range(spec["a"]["attrs"]):
+            attrs["k%d" % i] = "%d" % i
+        return (mat_str(spec["t"]), attrs, mat_content(spec.get("c")))
     for k, v in spec.get("a", []):
         attrs[mat_str(k)] = mat_str(v)
     return (mat_str(spec["t"]), attrs, mat_content(spec.get("c")))
@@ -189,6 +197,13 @@ def boundary_trees(tier):
     for n in [254, 255, 256, 257, 300, 1000]:
         out.append({"name": "children_%d" % n,
                     "tree": {"t": "list", "a": [], "c": [{"t": "item", "a": [["i", str(i)]], "c": None} for i in range(n)]}})
+    # the upper half and the top of the 16-bit list size (a header counts 1 + 2 per attribute + 1 for content)
+    for n in [32767, 32768, 40000, 65535]:
+        out.append({"name": "children_%d_then_sibling" % n,
+                    "tree": {"t": "iq", "a": [["id", "x"]], "c": [{"t": "list", "a": [], "c": {"children": n}}, {"t": "after", "a": [["k", "v"]], "c": None}]}})
+    for n in [16383, 16384, 20000, 32767]:
+        out.append({"name": "attrs_%d_wide" % n, "tree": {"t": "x", "a": {"attrs": n}, "c": None}})
+    out.append({"name": "attrs_16383_with_content", "tree": {"t": "x", "a": {"attrs": 16383}, "c": {"hex": "0102"}}})
     out.append({"name": "empty_content", "tree": {"t": "x", "a": [], "c": {"hex": ""}}})
     out.append({"name": "empty_content_then_sibling",
                 "tree": {"t": "p", "a": [], "c": [{"t": "x", "a": [], "c": {"hex": ""}}, {"t": "y", "a": [], "c": None}]}})
